@@ -22,6 +22,9 @@ pub open spec fn structural_batch(ts: Seq<LuaType>) -> bool {
 }
 pub open spec fn no_never_any(ts: Seq<LuaType>) -> bool { forall|i: int| 0 <= i < ts.len() ==> !(#[trigger] ts[i] is Never) && !(ts[i] is Any) }
 
+pub open spec fn single_plain(t: LuaType) -> bool { plain(t) && !(t is Never) && !(t is Any) }
+/// `exists e in s: e == x` (argument order of slice::contains)
+pub open spec fn contains_eq(s: Seq<LuaType>, x: LuaType) -> bool { exists|i: int| 0 <= i < s.len() && teq(#[trigger] s[i], x) }
 /// LuaType::eq restricted to the values of a batch is an equivalence (PartialEq/Eq contract; FloatConst(NaN) breaks reflexivity)
 pub open spec fn eq_regular(ts: Seq<LuaType>) -> bool {
     &&& forall|a: LuaType| ts.contains(a) ==> #[trigger] teq(a, a)
@@ -69,7 +72,7 @@ pub open spec fn same_union(a: LuaType, b: LuaType) -> bool {
 
 /// postcondition of LuaUnionType::from_vec
 pub open spec fn union_from_vec_post(types: Seq<LuaType>, r: LuaUnionType) -> bool {
-    &&& set_eq(sp_into_vec(r), types)
+    &&& eq_obeys() ==> set_eq(sp_into_vec(r), types)
     &&& eq_obeys() && teq_dupfree(types) ==> teq_dupfree(sp_into_vec(r))
     &&& eq_obeys() && teq_dupfree(types) && types.len() >= 2 && teq(types[0], types[0]) ==> sp_into_vec(r).len() >= 2
 }
@@ -78,6 +81,38 @@ pub open spec fn from_vec_post(types: Seq<LuaType>, r: LuaType) -> bool {
     eq_obeys() && no_unions(types) && eq_regular(types) && dup_coherent(types) && types.len() >= 1 ==> union_of(r, dedupe(types))
 }
 
+/// distinct basic types are different variants: LuaType::eq says false; a basic type is never equal to a non-basic one
+pub proof fn lemma_teq_basic(a: LuaType, b: LuaType)
+    requires sp_kind_of(a) is Some,
+    ensures a != b ==> !teq(a, b) && !teq(b, a), teq(a, a),
+{
+    reveal(teq);
+}
+pub proof fn lemma_teq_nil(a: LuaType)
+    ensures teq(a, LuaType::Nil) == (a is Nil), teq(LuaType::Nil, a) == (a is Nil),
+{
+    reveal(teq);
+}
+/// contract of union_type_impl(match_source, source, target) -> r: the three accumulator shapes the one-at-a-time fold of a structural
+/// batch goes through (empty = Never, a single plain type, a union)
+pub open spec fn impl_post(ms: LuaType, source: LuaType, target: LuaType, r: LuaType) -> bool {
+    &&& (ms is Never && !(target is Any)) ==> r == target
+    &&& (eq_obeys() && ms == source && single_plain(source) && single_plain(target) && !pair_rule(source, target))
+            ==> (if teq(source, target) { r == source } else { from_vec_post(seq![source, target], r) })
+    &&& (eq_obeys() && ms == source && source is Union && single_plain(target))
+            ==> (if contains_eq(members_of(source), target) { r == source }
+                 else { r matches LuaType::Union(u2) && union_from_vec_post(members_of(source).push(target), *u2) })
+}
+pub open spec fn any_callable(s: Seq<LuaType>) -> bool { exists|i: int| 0 <= i < s.len() && (#[trigger] s[i] is DocFunction || s[i] is Signature) }
+/// contract of canonicalize_callable_union(db, ty) -> r (the part in front of the callable dedupe)
+pub open spec fn canon_post(ty: LuaType, r: LuaType) -> bool {
+    &&& !(ty is Union) ==> r == ty
+    &&& (ty is Union && !any_callable(members_of(ty))) ==> from_vec_post(members_of(ty), r)
+}
+/// contract of union_type(db, source, target) -> r for a source that is not a `Ref` (no alias lookup)
+pub open spec fn union_type_post(source: LuaType, target: LuaType, r: LuaType) -> bool {
+    !(source is Ref) ==> exists|mid: LuaType| #[trigger] impl_post(source, source, target, mid) && canon_post(mid, r)
+}
 // ---- lemmas ---------------------------------------------------------------------------------------------------------------
 pub proof fn lemma_dedupe_push(s: Seq<LuaType>, x: LuaType)
     ensures dedupe(s.push(x)) == (if seen(dedupe(s), x) { dedupe(s) } else { dedupe(s).push(x) }),
@@ -129,6 +164,46 @@ pub proof fn lemma_dedupe_props(ts: Seq<LuaType>)
         }
     }
 }
+pub open spec fn batch_hyp(ts: Seq<LuaType>) -> bool { eq_obeys() && no_unions(ts) && eq_regular(ts) && dup_coherent(ts) }
+pub proof fn lemma_regular_take(ts: Seq<LuaType>, k: int)
+    requires eq_regular(ts), 0 <= k <= ts.len(),
+    ensures eq_regular(ts.take(k)),
+{
+    let p = ts.take(k);
+    assert forall|a: LuaType| p.contains(a) implies ts.contains(a) by {
+        let i = choose|i: int| 0 <= i < p.len() && p[i] == a;
+        assert(ts[i] == a);
+    }
+}
+/// one step of the hash-set dedupe in LuaType::from_vec
+pub proof fn lemma_dedupe_step(ts: Seq<LuaType>, k: int)
+    requires eq_regular(ts), dup_coherent(ts), 0 <= k < ts.len(),
+    ensures
+        seen(dedupe(ts.take(k)), ts[k]) ==> hash_by_value(ts[k]),
+        dedupe(ts.take(k + 1)) == (if seen(dedupe(ts.take(k)), ts[k]) { dedupe(ts.take(k)) } else { dedupe(ts.take(k)).push(ts[k]) }),
+{
+    let p = ts.take(k);
+    lemma_regular_take(ts, k);
+    lemma_dedupe_props(p);
+    assert(ts.take(k + 1) == p.push(ts[k]));
+    lemma_dedupe_push(p, ts[k]);
+    let d = dedupe(p);
+    if seen(d, ts[k]) {
+        let i = choose|i: int| 0 <= i < d.len() && teq(ts[k], #[trigger] d[i]);
+        assert(p.contains(d[i]));
+        let j = choose|j: int| 0 <= j < p.len() && p[j] == d[i];
+        assert(ts[j] == d[i]);
+    }
+}
+pub proof fn lemma_dedupe_single(ts: Seq<LuaType>)
+    requires ts.len() == 1,
+    ensures dedupe(ts) == seq![ts[0]],
+{
+    assert(ts.drop_last() == Seq::<LuaType>::empty());
+    assert(dedupe(ts.drop_last()) == Seq::<LuaType>::empty());
+    assert(!seen(Seq::<LuaType>::empty(), ts.last()));
+    assert(Seq::<LuaType>::empty().push(ts.last()) == seq![ts[0]]);
+}
 /// a duplicate-free list is its own dedupe
 pub proof fn lemma_dedupe_id(s: Seq<LuaType>)
     requires teq_dupfree(s),
@@ -158,7 +233,7 @@ pub proof fn lemma_dedupe_id(s: Seq<LuaType>)
 /// both ways of building the union of the same distinct members give the same union
 pub proof fn lemma_same_union(f: LuaType, s: LuaType, d: Seq<LuaType>)
     requires union_of(f, d), acc_ok(s, d), d.len() >= 1,
-    ensures same_union(f, s) /*@C16.union-batch-equals-fold*/,
+    ensures same_union(f, s),
 {
     if d.len() >= 2 {
         let a = members_of(f);
@@ -174,4 +249,215 @@ pub proof fn lemma_same_union(f: LuaType, s: LuaType, d: Seq<LuaType>)
             assert(a.contains(d[k]));
         }
     }
+}
+
+// ---- the one-at-a-time fold on a structural batch ------------------------------------------------------------------------------
+pub open spec fn fold_hyp(ts: Seq<LuaType>) -> bool { eq_obeys() && structural_batch(ts) && no_never_any(ts) && eq_regular(ts) }
+pub open spec fn subseq_of(m: Seq<LuaType>, ts: Seq<LuaType>) -> bool { forall|i: int| 0 <= i < m.len() ==> ts.contains(#[trigger] m[i]) }
+
+pub proof fn lemma_set_eq_trans(a: Seq<LuaType>, b: Seq<LuaType>, c: Seq<LuaType>)
+    requires set_eq(a, b), set_eq(b, c),
+    ensures set_eq(a, c),
+{
+    assert forall|i: int| 0 <= i < a.len() implies c.contains(#[trigger] a[i]) by {
+        let k = choose|k: int| 0 <= k < b.len() && b[k] == a[i];
+        assert(c.contains(b[k]));
+    }
+    assert forall|i: int| 0 <= i < c.len() implies a.contains(#[trigger] c[i]) by {
+        let k = choose|k: int| 0 <= k < b.len() && b[k] == c[i];
+        assert(a.contains(b[k]));
+    }
+}
+pub proof fn lemma_set_eq_push(a: Seq<LuaType>, b: Seq<LuaType>, x: LuaType)
+    requires set_eq(a, b),
+    ensures set_eq(a.push(x), b.push(x)),
+{
+    let ax = a.push(x); let bx = b.push(x);
+    assert forall|i: int| 0 <= i < ax.len() implies bx.contains(#[trigger] ax[i]) by {
+        if i < a.len() { let k = choose|k: int| 0 <= k < b.len() && b[k] == a[i]; assert(bx[k] == ax[i]); } else { assert(bx[b.len() as int] == x); }
+    }
+    assert forall|i: int| 0 <= i < bx.len() implies ax.contains(#[trigger] bx[i]) by {
+        if i < b.len() { let k = choose|k: int| 0 <= k < a.len() && a[k] == b[i]; assert(ax[k] == bx[i]); } else { assert(ax[a.len() as int] == x); }
+    }
+}
+/// a list of values of the batch inherits the batch's hypotheses; if it has no repetition (under ==) it satisfies LuaType::from_vec's
+pub proof fn lemma_sub_batch(m: Seq<LuaType>, ts: Seq<LuaType>)
+    requires fold_hyp(ts), subseq_of(m, ts), teq_dupfree(m),
+    ensures batch_hyp(m), !any_callable(m), dedupe(m) == m,
+{
+    assert forall|a: LuaType| m.contains(a) implies ts.contains(a) by {
+        let i = choose|i: int| 0 <= i < m.len() && m[i] == a;
+        assert(ts.contains(m[i]));
+    }
+    assert forall|i: int| 0 <= i < m.len() implies !(#[trigger] m[i] is Union) && !(m[i] is DocFunction) && !(m[i] is Signature) by {
+        assert(ts.contains(m[i]));
+        let k = choose|k: int| 0 <= k < ts.len() && ts[k] == m[i];
+        assert(plain(ts[k]));
+    }
+    lemma_dedupe_id(m);
+}
+/// one step of the fold: `acc` stands for the distinct members of ts[..k]; after union_type(db, acc, ts[k]) the result stands for ts[..k+1]
+pub proof fn lemma_fold_step(ts: Seq<LuaType>, k: int, acc: LuaType, mid: LuaType, r: LuaType)
+    requires
+        fold_hyp(ts), 0 <= k < ts.len(), acc_ok(acc, dedupe(ts.take(k))),
+        impl_post(acc, acc, ts[k], mid), canon_post(mid, r),
+    ensures acc_ok(r, dedupe(ts.take(k + 1))) /*@C16.union.fold-step*/,
+{
+    let p = ts.take(k);
+    let x = ts[k];
+    let d = dedupe(p);
+    lemma_regular_take(ts, k);
+    lemma_dedupe_props(p);
+    assert(ts.take(k + 1) == p.push(x));
+    lemma_dedupe_push(p, x);
+    let d1 = dedupe(ts.take(k + 1));
+    assert(ts.contains(x));
+    assert(plain(x) && !(x is Never) && !(x is Any));
+    // every distinct member so far is some ts[j], j < k
+    assert forall|i: int| 0 <= i < d.len() implies ts.contains(#[trigger] d[i]) && single_plain(d[i]) && !pair_rule(d[i], x) by {
+        assert(p.contains(d[i]));
+        let j = choose|j: int| 0 <= j < p.len() && p[j] == d[i];
+        assert(ts[j] == d[i]);
+        assert(plain(ts[j]));
+        assert(!pair_rule(ts[j], ts[k]));
+    }
+    if d.len() == 0 {
+        assert(mid == x);
+        assert(r == x);
+        assert(!seen(d, x));
+        assert(d1 == d.push(x));
+        assert(d1.len() == 1 && d1[0] == x);
+    } else if d.len() == 1 {
+        let a = d[0];
+        assert(acc == a);
+        if teq(a, x) {
+            assert(teq(x, a));
+            assert(seen(d, x));
+            assert(mid == a && r == a);
+        } else {
+            assert(!teq(x, a)) by { if teq(x, a) { assert(teq(a, x)); } }
+            assert(!seen(d, x));
+            assert(d1 == d.push(x));
+            let two = seq![a, x];
+            assert(two[0] == a && two[1] == x);
+            assert(subseq_of(two, ts));
+            assert(teq_dupfree(two));
+            lemma_sub_batch(two, ts);
+            assert(union_of(mid, two));
+            lemma_after_canon(ts, mid, two, r);
+            assert(two == d1);
+        }
+    } else {
+        let m = members_of(acc);
+        assert(subseq_of(m, ts)) by {
+            assert forall|i: int| 0 <= i < m.len() implies ts.contains(#[trigger] m[i]) by {
+                assert(d.contains(m[i]));
+                let j = choose|j: int| 0 <= j < d.len() && d[j] == m[i];
+                assert(ts.contains(d[j]));
+            }
+        }
+        if contains_eq(m, x) {
+            let i = choose|i: int| 0 <= i < m.len() && teq(#[trigger] m[i], x);
+            assert(d.contains(m[i]));
+            let j = choose|j: int| 0 <= j < d.len() && d[j] == m[i];
+            assert(ts.contains(d[j]));
+            assert(teq(x, d[j]));
+            assert(seen(d, x));
+            assert(mid == acc);
+            lemma_after_canon(ts, mid, d, r);
+        } else {
+            assert(!seen(d, x)) by {
+                if seen(d, x) {
+                    let j = choose|j: int| 0 <= j < d.len() && teq(x, #[trigger] d[j]);
+                    assert(m.contains(d[j]));
+                    let i = choose|i: int| 0 <= i < m.len() && m[i] == d[j];
+                    assert(ts.contains(d[j]));
+                    assert(teq(m[i], x));
+                }
+            }
+            assert(d1 == d.push(x));
+            let mx = m.push(x);
+            assert(subseq_of(mx, ts)) by {
+                assert forall|i: int| 0 <= i < mx.len() implies ts.contains(#[trigger] mx[i]) by { if i < m.len() { assert(mx[i] == m[i]); } }
+            }
+            assert(teq_dupfree(mx)) by {
+                assert forall|i: int, j: int| 0 <= i < mx.len() && 0 <= j < mx.len() && i != j implies !teq(#[trigger] mx[i], #[trigger] mx[j]) by {
+                    if i < m.len() && j < m.len() { assert(mx[i] == m[i] && mx[j] == m[j]); }
+                    else if i == m.len() { assert(mx[j] == m[j]); assert(ts.contains(m[j])); if teq(x, m[j]) { assert(teq(m[j], x)); } }
+                    else { assert(mx[i] == m[i]); }
+                }
+            }
+            assert(teq(mx[0], mx[0])) by { assert(mx[0] == m[0]); assert(ts.contains(m[0])); }
+            lemma_set_eq_push(m, d, x);
+            let m2 = members_of(mid);
+            lemma_set_eq_trans(m2, mx, d1);
+            assert(union_of(mid, d1));
+            lemma_after_canon(ts, mid, d1, r);
+        }
+    }
+}
+/// canonicalize_callable_union on a plain union of batch values keeps its member set
+pub proof fn lemma_after_canon(ts: Seq<LuaType>, mid: LuaType, d: Seq<LuaType>, r: LuaType)
+    requires fold_hyp(ts), d.len() >= 2, union_of(mid, d), subseq_of(d, ts), canon_post(mid, r),
+    ensures union_of(r, d),
+{
+    let m = members_of(mid);
+    assert(subseq_of(m, ts)) by {
+        assert forall|i: int| 0 <= i < m.len() implies ts.contains(#[trigger] m[i]) by {
+            assert(d.contains(m[i]));
+            let j = choose|j: int| 0 <= j < d.len() && d[j] == m[i];
+            assert(ts.contains(d[j]));
+        }
+    }
+    lemma_sub_batch(m, ts);
+    assert(union_of(r, m));
+    lemma_set_eq_trans(members_of(r), m, d);
+}
+
+/// the batch without its `never` members (union_type_all drops them before choosing a path)
+pub open spec fn drop_never(ts: Seq<LuaType>) -> Seq<LuaType>
+    decreases ts.len()
+{
+    if ts.len() == 0 { Seq::empty() }
+    else if ts.last() is Never { drop_never(ts.drop_last()) } else { drop_never(ts.drop_last()).push(ts.last()) }
+}
+pub open spec fn has_any(ts: Seq<LuaType>) -> bool { exists|i: int| 0 <= i < ts.len() && #[trigger] ts[i] is Any }
+pub proof fn lemma_drop_never_push(s: Seq<LuaType>, x: LuaType)
+    ensures drop_never(s.push(x)) == (if x is Never { drop_never(s) } else { drop_never(s).push(x) }),
+{
+    assert(s.push(x).drop_last() == s);
+}
+pub proof fn lemma_drop_never_props(ts: Seq<LuaType>)
+    requires !has_any(ts),
+    ensures no_never_any(drop_never(ts)),
+    decreases ts.len()
+{
+    if ts.len() > 0 {
+        assert forall|i: int| 0 <= i < ts.drop_last().len() implies !(#[trigger] ts.drop_last()[i] is Any) by { assert(ts[i] == ts.drop_last()[i]); }
+        lemma_drop_never_props(ts.drop_last());
+        assert(!(ts[ts.len() - 1] is Any));
+    }
+}
+
+/// C16, last sentence, for a batch to which the fast path applies: the batch result (union_type_all: `union_of(f, D)`) and the result of
+/// unioning one at a time (union_fold, the slow-path text itself: `acc_ok(s, D)`) are the same union — identical when there is one
+/// distinct member, else unions with the same duplicate-free member set; the ORDER of the members may differ.
+pub proof fn law_batch_equals_fold(ts: Seq<LuaType>, f: LuaType, s: LuaType)
+    requires fold_hyp(ts), ts.len() >= 1, union_of(f, dedupe(ts)), acc_ok(s, dedupe(ts)),
+    ensures same_union(f, s) /*@C16.union-batch-equals-fold*/,
+{
+    lemma_dedupe_props(ts);
+    lemma_same_union(f, s, dedupe(ts));
+}
+/// every value-hashed batch satisfies the two side hypotheses (LuaType::eq is structural equality on these variants)
+pub open spec fn all_hash_by_value(ts: Seq<LuaType>) -> bool { forall|i: int| 0 <= i < ts.len() ==> hash_by_value(#[trigger] ts[i]) }
+pub proof fn lemma_value_batches_are_regular(ts: Seq<LuaType>)
+    requires all_hash_by_value(ts),
+    ensures eq_regular(ts), dup_coherent(ts) /*@C16.union.value-batches-are-regular*/,
+{
+    reveal(teq);
+    assert forall|a: LuaType| ts.contains(a) implies hash_by_value(a) by {
+        let i = choose|i: int| 0 <= i < ts.len() && ts[i] == a;
+    }
+    assert forall|a: LuaType, b: LuaType| hash_by_value(a) && hash_by_value(b) implies (#[trigger] teq(a, b) <==> a == b) by { }
 }
